@@ -1520,6 +1520,24 @@ func (sc *serverConn) sendData(strm *Stream) bool {
 			}
 
 			if len(strm.pendingData) == 0 {
+				// The reader ended without another byte, so END_STREAM has
+				// not gone out on a DATA frame: a body of unknown length
+				// finishes with (0, io.EOF), and so does an empty one. Close
+				// the stream with an empty DATA frame, or the peer waits for
+				// the rest of the response forever.
+				if strm.pendingEnd {
+					fr := AcquireFrameHeader()
+					fr.SetStream(strm.ID())
+
+					data := AcquireFrame(FrameData).(*Data)
+					data.SetEndStream(true)
+					data.SetPadding(false)
+
+					fr.SetBody(data)
+
+					sc.write(fr)
+				}
+
 				break
 			}
 		}
@@ -1559,6 +1577,12 @@ func (sc *serverConn) sendData(strm *Stream) bool {
 
 		strm.window -= step
 		sc.clientWindow -= step
+
+		if end {
+			// END_STREAM is out. Going round again would read the body
+			// stream once more and end the stream a second time.
+			break
+		}
 	}
 
 	sc.closeBodyStream(strm)
